@@ -343,9 +343,6 @@ T3 == IF TripleLevel >= 2 THEN T3large ELSE T3small
 CaseSeqs == {<<a>> : a \in Terms}
             \cup ({<<a, b>> : a \in Terms, b \in Terms} \ {<<a, a>> : a \in Terms})
             \cup {s \in {<<a, b, c>> : a \in T3, b \in T3, c \in T3} : s[1] # s[2] /\ s[1] # s[3] /\ s[2] # s[3]}
-AllCases == SetToSeq(CaseSeqs)
-MyCases == SelectSeq([i \in 1..Len(AllCases) |-> [i |-> i, s |-> AllCases[i]]], LAMBDA c : c.i % NShards = Shard)
-
 \* ------------------------------------------------------ per-case prediction
 Case(S) ==
   LET f == FuseAllR(S)
@@ -361,7 +358,9 @@ Case(S) ==
       embeds   |-> \A i \in 1..Len(S) : Embeds(S[i], f.t)]
 
 \* The table is evaluated once (TLCEval) and handed to the checks as a value.
-Predictions == TLCEval([i \in 1..Len(MyCases) |-> Case(MyCases[i].s)])
+Predictions == LET cs  == SetToSeq(CaseSeqs)
+                   idx == SetToSeq({j \in 1..Len(cs) : j % NShards = Shard})
+               IN TLCEval([i \in 1..Len(idx) |-> Case(cs[idx[i]])])
 
 \* The property holds on the transcription wherever no named defect path was taken,
 \* and the result of merge can house every input whatever the shaper does.
@@ -390,12 +389,25 @@ CheckCases(Pr) == /\ AllHold(Pr) \/ (PrintT("AllHold fails") /\ FALSE)
 ASSUME CheckCases(Predictions)
 
 \* merge is commutative up to record field order (not needed by the property; documents the transcription)
-Commutes == \A a \in L1, b \in L1 : NormFields(MergeR(a, b).t) = NormFields(MergeR(b, a).t)
-\* merge(t,t) = t exactly for null, records and unions of the alphabet (names are dropped from records)
-Idempotent == \A t \in Terms : LET m == MergeR(t, t) IN
-                 IF m.x = {} THEN NormFields(Under(m.t)) = NormFields(Under(t)) ELSE ~WellFormed(m.t)
+\* (TLC evaluates every constant definition at startup, so the shard guard is inside the definitions.)
+Commutes == Shard # 0 \/ \A a \in L1, b \in L1 : NormFields(MergeR(a, b).t) = NormFields(MergeR(b, a).t)
+\* merge(t,t) = t (up to names and field order) off the defect path, except that a union with several
+\* record members collapses them by design (mergeAllRecords); on the defect path the result is ill-formed.
+RECURSIVE MultiRecUnion(_)
+MultiRecUnion(t) ==
+  CASE t.k = "prim"  -> FALSE
+    [] t.k = "named" -> MultiRecUnion(t.t)
+    [] t.k = "rec"   -> \E i \in 1..Len(t.fs) : MultiRecUnion(t.fs[i].t)
+    [] t.k \in {"arr", "set"} -> MultiRecUnion(t.e)
+    [] t.k = "map"   -> MultiRecUnion(t.kt) \/ MultiRecUnion(t.vt)
+    [] t.k = "union" -> \/ Cardinality({i \in 1..Len(t.ts) : IsRecT(t.ts[i])}) >= 2
+                        \/ \E i \in 1..Len(t.ts) : MultiRecUnion(t.ts[i])
+Idempotent == Shard # 0 \/ \A t \in Terms : LET m == MergeR(t, t) IN
+                 IF m.x # {} THEN ~WellFormed(m.t)
+                 ELSE /\ Embeds(t, m.t)
+                      /\ MultiRecUnion(t) \/ NormFields(Under(m.t)) = NormFields(Under(t))
 
-ASSUME Shard # 0 \/ (Commutes /\ Idempotent)
+ASSUME Commutes /\ Idempotent
 
 \* =================================================== Part 2: fuse.Fuser
 \* Values: [t: type term, sz: len(rec.Bytes()), null: the value is null]
@@ -486,13 +498,15 @@ SchemaInv == wi > 1 => schema = FusedOf(SubSeq(input, 1, wi - 1))
 DoneInv == pc = "done" => /\ out = Expected(input)
                           /\ spillAt = SpillIndex(input, mem)
                           /\ \A i \in 1..Len(out) : out[i].typ = schema
-SpillNonVacuous == /\ \E in \in Inputs, m \in Mems : SpillIndex(in, m) = 0 /\ Len(in) >= 2
+SpillNonVacuous == IF Shard # 0 THEN TRUE ELSE
+                   /\ \E in \in Inputs, m \in Mems : SpillIndex(in, m) = 0 /\ Len(in) >= 2
                    /\ \E in \in Inputs, m \in Mems : SpillIndex(in, m) = 1 /\ Len(in) >= 2
                    /\ \E in \in Inputs, m \in Mems : SpillIndex(in, m) >= 2
                    /\ \E in \in Inputs : Len(in) >= 2 /\ FusedOf(in).k = "rec" /\ Len(FusedOf(in).fs) = 2
-ASSUME Shard # 0 \/ SpillNonVacuous
+ASSUME SpillNonVacuous
 
-SpillCases == {[input |-> in, mem |-> m, spillAt |-> SpillIndex(in, m), fused |-> FusedOf(in),
+SpillCases == IF Shard # 0 THEN {} ELSE
+              {[input |-> in, mem |-> m, spillAt |-> SpillIndex(in, m), fused |-> FusedOf(in),
                 outs |-> [i \in 1..Len(in) |-> Expected(in)[i].typ]] : in \in {q \in Inputs : Len(q) >= 1}, m \in Mems}
 ASSUME Shard # 0 \/ SpillFile = "" \/ ndJsonSerialize(SpillFile, SetToSeq(SpillCases))
 =============================================================================
